@@ -9,6 +9,7 @@ import (
 
 	"github.com/ipld/go-ipld-prime/datamodel"
 	"github.com/ipld/go-ipld-prime/node/basicnode"
+	"github.com/ucan-wg/go-ucan/did"
 	"github.com/ucan-wg/go-ucan/pkg/args"
 	"github.com/ucan-wg/go-ucan/pkg/command"
 	"github.com/ucan-wg/go-ucan/pkg/meta"
@@ -354,6 +355,29 @@ func ctorWellFormed() (out string) {
 			}
 		}
 	}
+	// Root: the subject is a REQUIRED principal of a root delegation (and is the issuer); a WithSubject among the caller's
+	// options — an option list shared with New, say — is documented as silently overwritten, wherever it stands in the list
+	third := keyFor("ed25519", 2)
+	for name, sub := range map[string]did.DID{"undefined": did.Undef, "foreign": third.did, "the audience": aud.did} {
+		lists := map[string][]delegation.Option{
+			"only":  {delegation.WithSubject(sub)},
+			"last":  {delegation.WithNonce(make([]byte, 12)), delegation.WithSubject(sub)},
+			"first": {delegation.WithSubject(sub), delegation.WithNonce(make([]byte, 12))},
+			"twice": {delegation.WithSubject(sub), delegation.WithMeta("a", "b"), delegation.WithSubject(sub)},
+			"roomy": append(make([]delegation.Option, 0, 8), delegation.WithSubject(sub)),
+		}
+		for pos, opts := range lists {
+			t, err := delegation.Root(k.did, aud.did, command.MustParse("/x"), nil, opts...)
+			if err != nil {
+				continue
+			}
+			if !t.Subject().Defined() {
+				problems = append(problems, "delegation.Root with WithSubject("+name+") ("+pos+") returned a root token without subject")
+			} else if t.Subject().String() != t.Issuer().String() {
+				problems = append(problems, "delegation.Root with WithSubject("+name+") ("+pos+") returned a root token whose subject is not its issuer")
+			}
+		}
+	}
 	sort.Strings(problems)
 	if len(problems) > 0 {
 		return strings.Join(problems, "; ")
@@ -427,6 +451,32 @@ func cmdHistory() (out string) {
 			problems = append(problems, "invocation.New refuses the valid command "+text)
 		} else if iv.Command().String() != text {
 			problems = append(problems, "invocation.New stores "+iv.Command().String()+" for the command "+text)
+		}
+		// the same command as a caller may hold it without having gone through Parse (Command is a string type; New and Join
+		// assemble text too): what was sealed is what is unsealed, by every decoder
+		for how, raw := range map[string]command.Command{"converted": command.Command(text), "joined": command.Top().Join(strings.TrimPrefix(text, "/"))} {
+			if string(raw) != text {
+				continue
+			}
+			if d, err := delegation.Root(k.did, k.did, raw, nil); err == nil {
+				if sealed, _, err := d.ToSealed(k.priv); err == nil {
+					if back, _, err := delegation.FromSealed(sealed); err != nil || back.Command().String() != d.Command().String() {
+						problems = append(problems, "a delegation for "+text+" ("+how+") does not come back with that command")
+					}
+				}
+				if js, err := d.ToDagJson(k.priv); err == nil {
+					if back, err := delegation.FromDagJson(js); err != nil || back.Command().String() != d.Command().String() {
+						problems = append(problems, "a delegation for "+text+" ("+how+") does not come back from DAG-JSON with that command")
+					}
+				}
+			}
+			if iv, err := invocation.New(k.did, k.did, raw, nil); err == nil {
+				if sealed, _, err := iv.ToSealed(k.priv); err == nil {
+					if back, _, err := invocation.FromSealed(sealed); err != nil || back.Command().String() != iv.Command().String() {
+						problems = append(problems, "an invocation of "+text+" ("+how+") does not come back with that command")
+					}
+				}
+			}
 		}
 	}
 	if len(problems) > 0 {
